@@ -603,7 +603,7 @@ func (s *Service) truncate(ctx context.Context, jrnl journal.Journal, tp *Trunca
 
 	if tp.OldestTs > 0 && idx < len(cks) {
 		sc := s.TsIndexer.SyncChunks(ctx, jrnl.Name(), cks)
-		for ; idx < len(sc) && sc[idx].MaxTs <= tp.OldestTs && size-uint64(cks[idx].Size()) >= tp.MinSrcSize; idx++ {
+		for ; idx < len(sc) && sc[idx].MaxTs < tp.OldestTs && size-uint64(cks[idx].Size()) >= tp.MinSrcSize; idx++ {
 			size -= uint64(cks[idx].Size())
 		}
 	}
